@@ -99,6 +99,28 @@ fn value_families(thorough: bool) -> Vec<(String, MetadataWrapper)> {
     for (m, p) in [(&[("a", 1u8)][..], &[][..]), (&[][..], &[("a", 1u8)][..]), (&[("a", 1)][..], &[("a", 1)][..]), (&[("a", 2)][..], &[("a", 1)][..]), (&[("a", 1)][..], &[("a", 2)][..]), (&[("a", 1), ("b", 2)][..], &[][..]), (&[("a", 2), ("b", 1)][..], &[][..])] {
         out.push((format!("artifacts {m:?} {p:?}"), link_struct("n", &[], None, m, p, None, None, None)));
     }
+    // artifacts recorded without any digest are still artifacts (their paths are what rules see)
+    {
+        use in_toto::models::TargetDescription;
+        let mk = |m: Vec<(&str, TargetDescription)>, p: Vec<(&str, TargetDescription)>| -> MetadataWrapper {
+            MetadataWrapper::Link(
+                LinkMetadataBuilder::new()
+                    .name("n".into())
+                    .materials(m.into_iter().map(|(k, v)| (world::vpath(k), v)).collect())
+                    .products(p.into_iter().map(|(k, v)| (world::vpath(k), v)).collect())
+                    .build()
+                    .unwrap(),
+            )
+        };
+        let e = TargetDescription::new;
+        out.push(("artifacts none".into(), mk(vec![], vec![])));
+        out.push(("artifacts product a without digests".into(), mk(vec![], vec![("a", e())])));
+        out.push(("artifacts product a,b without digests".into(), mk(vec![], vec![("a", e()), ("b", e())])));
+        out.push(("artifacts material a without digests".into(), mk(vec![("a", e())], vec![])));
+        out.push(("artifacts product a with, b without digests".into(), mk(vec![], vec![("a", world::desc(1)), ("b", e())])));
+        out.push(("artifacts product a with digest".into(), mk(vec![], vec![("a", world::desc(1))])));
+        out.push(("artifacts product a with two algorithms".into(), mk(vec![], vec![("a", world::desc2(1))])));
+    }
     for ret in [None, Some(0), Some(1), Some(-1), Some(i32::MAX), Some(i32::MIN)] {
         for so in [None, Some(""), Some("0")] {
             for se in [None, Some(""), Some("0")] {
